@@ -24,6 +24,8 @@ theorem cstep_parent_mask_disp (me : XProc) (par : Proc) (op : COp) :
   | sig op => exact sstep_parent_mask_disp me.p par op
   | setlim n => exact ⟨rfl, rfl⟩
   | exit n => exact ⟨rfl, rfl⟩
+  | badlim n => exact ⟨rfl, rfl⟩
+  | waitself => exact ⟨rfl, rfl⟩
 
 theorem childRun_parent_mask_disp (ops : List COp) : ∀ (c : XProc) (p : Proc),
     (childRun c p ops).2.1.mask = p.mask ∧ (childRun c p ops).2.1.disp = p.disp := by
@@ -44,6 +46,8 @@ theorem ok8_cstep {me : XProc} (h : Ok8 me.p) (par : Option Proc) (op : COp) : O
   | sig op => exact ok8_sstep h par op
   | setlim n => exact h
   | exit n => exact ok8_exit me.p h n
+  | badlim n => exact h
+  | waitself => exact h
 
 theorem ok8_childRun (ops : List COp) : ∀ {c : XProc} (p : Proc), Ok8 c.p → Ok8 (childRun c p ops).1.p := by
   induction ops with
